@@ -31,6 +31,15 @@ func c15Directed(e func(string)) {
 				s += fmt.Sprintf(" ; A=post:%d", k+2)
 			}
 			e(s + " ; B=post:50! ; D=post:51! ; C=close ; B> ; D> ; gate ; A=post:60")
+			// Close() from inside a callback running on the handler/actor itself (ids 300-399): it must return
+			e(h + "A=post:300 ; W=waitclosed ; A=post:5 ; B=post:6")
+			e(h + "A=post:1 ; A=post:301 ; W=waitclosed ; A=post:7")
+			// ... with the loop goroutine parked inside that Close, and posters in the check/send window
+			e(h + "I+" + comp + ".close.afterFlag ; A=post:300 ; I?" + comp + ".close.afterFlag ; B=post:6 ; I>" + comp + ".close.afterFlag ; W=waitclosed ; B=post:8")
+			e(h + "D=post:9@" + chk + " ; A=post:300 ; W=waitclosed ; D> ; A=post:5")
+			// a running callback waits for what the closer does right after Close() returned (ids 400-499)
+			e(h + "A=post:400 ; C=close ; W=waitclosed ; A=post:5")
+			e(h + "A=post:400 ; B=post:50@" + chk + " ; C=close ; B> ; W=waitclosed")
 		}
 	}
 	// ---- BufferedChannelQueue
